@@ -14,14 +14,19 @@ PROPERTY = "C20"
 LEVEL = "exploration"
 RULE = (
     "inputs are generated together with their denotation from explicit grammars (hosts: lower-case DNS names, "
-    "IPv4, IPv6 in compressed/exploded/mixed spellings; ports None|0..65535 incl. all boundaries; parameter maps "
+    "IPv4, IPv6 in compressed/exploded/mixed spellings, scoped IPv6 literals address%zone (link-local / link-scope "
+    "multicast addresses with an interface name or index as zone id) with and without port; ports None|0..65535 "
+    "incl. all boundaries; parameter maps "
     "per transport scheme with integers spelled dec/hex/oct/bin; range expressions: items int|lo-hi joined by ',' "
     "(1-D) and outer:inner entries joined by spaces (2-D), overlaps, singletons, reversed, repeated/bare outer "
     "keys) plus strings outside the grammar; a case is non-trivial when it is not the empty string; distinct = "
     "distinct (kind, input) pairs"
 )
 ASSUMPTIONS = [
-    "DNS names are generated in lower case; IPv6 zone ids are not generated; parameter values are non-empty",
+    "DNS names are generated in lower case; parameter values are non-empty",
+    "IPv6 zone ids are interface names or indices over [A-Za-z0-9._-] (no character that needs escaping in a URI); a scoped "
+    "host is the same host only if the address is equal by value AND the zone id is equal character by character "
+    "(interface names are case sensitive; another zone id is another interface, not a re-spelling)",
     "time/size settings (ack_timeout, frame_txtime, tx_dl) are spelled in decimal as the discovery scanners emit them; "
     "address-like settings are spelled in all four notations",
     "a reversed range lo-hi with lo>hi may denote the empty set or be rejected; both are accepted",
@@ -35,7 +40,10 @@ LEVEL_TEXT = (
     "and compared with the meaning they were generated from. Held means held on those inputs; the grammars are the ones the "
     "statement names."
 )
-LEVEL_NOTE = "Trusted: the input grammars in vf/checks/c20.py, Python's ipaddress module for IPv6 equality. Hosts are lower-case, no zone ids."
+LEVEL_NOTE = (
+    "Trusted: the input grammars in vf/checks/c20.py, Python's ipaddress module for IPv6 equality (address part; the zone id of a "
+    "scoped literal is compared as text). DNS names are lower-case."
+)
 
 
 def shards(tier: str, seed: int) -> list[dict[str, Any]]:
@@ -56,6 +64,14 @@ def required_reach(tier: str) -> dict[str, int]:
         "cfg.hsfz": 50,
         "cfg.isotp": 50,
         "hostport.roundtrip": 200,
+        # scoped IPv6 literals (address%zone): URI with / without port, host:port joined and bare
+        "uri.ipv6z+port": 50,
+        "uri.ipv6z.noport": 10,
+        "uri.netloc-split.ipv6z+port": 50,
+        "hostport.ipv6z+port": 50,
+        "hostport.ipv6z.bare": 10,
+        "zone.name": 50,
+        "zone.index": 20,
         "range1d.valid": 500,
         "range1d.invalid": 100,
         "range2d.valid": 500,
@@ -107,6 +123,8 @@ def gen_host(rng: random.Random) -> tuple[str, str]:
     if k < 6:
         v = rng.choice([0, 1, 0x7F000001, 0xC0000202, 0xFFFFFFFF, rng.getrandbits(32)])
         return "ipv4", str(ipaddress.IPv4Address(v))
+    if k >= 8:
+        return gen_scoped_ipv6(rng)
     specials = [0, 1, 1 << 127, (1 << 128) - 1, 0xFE80 << 112 | 1, 0x20010DB8 << 96, 0x20010DB8 << 96 | 0xFFFF]
     v = rng.choice(specials) if rng.random() < 0.3 else rng.getrandbits(128)
     if rng.random() < 0.5:
@@ -121,6 +139,40 @@ def gen_host(rng: random.Random) -> tuple[str, str]:
     if form == 1:
         return "ipv6", a.exploded
     return "ipv6", a.compressed.upper()
+
+
+ZONE_NAMES = ["eth0", "eth1", "enp0s31f6", "wlan0", "br-lan", "eth0.100", "vlan_7", "lo", "en0", "Eth0", "tun-A1"]
+ZONE_CHARS = "abcdefghijklmnopqrstuvwxyz0123456789"
+
+
+def gen_zone(rng: random.Random) -> tuple[str, str]:
+    """zone id of a scoped IPv6 literal: an interface name or an interface index"""
+    k = rng.randrange(10)
+    if k < 3:
+        return "index", str(rng.choice([1, 2, 3, 9, 10, 25, 250, rng.randint(1, 99999)]))
+    if k < 6:
+        return "name", rng.choice(ZONE_NAMES)
+    name = rng.choice("abcdefghijklmnopqrstuvwxyz") + "".join(rng.choice(ZONE_CHARS + "._-") for _ in range(rng.randint(0, 12))) + rng.choice(ZONE_CHARS)
+    return "name", name
+
+
+def gen_scoped_ipv6(rng: random.Random) -> tuple[str, str]:
+    """address%zone: link-local unicast (fe80::/64 + interface id) or link-scope multicast (ff02::/16), every spelling"""
+    if rng.random() < 0.85:
+        iid = rng.choice([1, 2, 0xFFFF, (1 << 64) - 1, rng.getrandbits(16), rng.getrandbits(64)])
+        v = (0xFE80 << 112) | iid
+    else:
+        v = (0xFF02 << 112) | rng.choice([1, 2, 0xFB, 0x1FF000000 | rng.getrandbits(24)])
+    a = ipaddress.IPv6Address(v)
+    form = rng.randrange(3)
+    text = a.compressed if form == 0 else a.exploded if form == 1 else a.compressed.upper()
+    _, zone = gen_zone(rng)
+    return "ipv6z", f"{text}%{zone}"
+
+
+def reach_zone(ctx: Any, kind: str, host: str) -> None:
+    if kind == "ipv6z":
+        ctx.reach("zone.index" if host.partition("%")[2].isdigit() else "zone.name")
 
 
 def gen_port(rng: random.Random) -> int | None:
@@ -140,7 +192,23 @@ def hosts_equal(kind: str, want: str, got: str | None) -> bool:
             return ipaddress.IPv6Address(got) == ipaddress.IPv6Address(want)
         except ValueError:
             return False
+    if kind == "ipv6z":
+        # a scoped literal: same address by value AND the very same zone id (the zone names an interface;
+        # "25eth0" or "ETH0" is another interface than "eth0", not another spelling of it)
+        w_addr, w_pct, w_zone = want.partition("%")
+        g_addr, g_pct, g_zone = got.partition("%")
+        if g_pct != w_pct or g_zone != w_zone:
+            return False
+        try:
+            return ipaddress.IPv6Address(g_addr) == ipaddress.IPv6Address(w_addr)
+        except ValueError:
+            return False
     return got == want
+
+
+def host_kind(host: str) -> str:
+    """kind of a literal host (for replaying a witness)"""
+    return "ipv6z" if "%" in host else "ipv6" if ":" in host else "other"
 
 
 SCHEME_PARAMS: dict[str, list[tuple[str, str, int]]] = {
@@ -183,10 +251,13 @@ def case_uri(ctx: Any, rng: random.Random) -> None:
     case = {"scheme": scheme, "host": host, "port": port, "args": args}
     ctx.case(("uri", scheme, host, port, sorted(args.items(), key=str)))
     ctx.reach(f"uri.{kind}")
+    reach_zone(ctx, kind, host)
     if port is None:
         ctx.reach("uri.noport")
-    elif kind == "ipv6":
-        ctx.reach("uri.ipv6+port")
+        if kind == "ipv6z":
+            ctx.reach("uri.ipv6z.noport")
+    elif kind in ("ipv6", "ipv6z"):
+        ctx.reach(f"uri.{kind}+port")
     if port in (0, 65535):
         ctx.reach(f"uri.port{port}")
     ctx.sample({"kind": "uri", **case})
@@ -221,7 +292,7 @@ def case_uri(ctx: Any, rng: random.Random) -> None:
             pth += rng.choice(["/a b", "/ä", "/x%y"])
         qs = raw.split("?", 1)[1] if "?" in raw else ""
         forms = [f"{scheme}://{_q(pth)}" + (f"?{qs}" if qs else "")]
-        if port is not None or kind != "ipv6":
+        if port is not None or kind not in ("ipv6", "ipv6z"):
             forms.append(raw.split("?", 1)[0] + _q(pth) + (f"?{qs}" if qs else ""))
         for raw3 in forms:
             ctx.reach("uri.path")
@@ -253,6 +324,19 @@ def case_uri(ctx: Any, rng: random.Random) -> None:
         else:
             if flat2 != want_flat and str(args[k2]) != other:
                 ctx.violation("uri/repeated-key/not-first-value", "for a key written twice the parameter map does not hold the first value", {"kind": "uri", "case": {**case, "uri": raw2}, "got": flat2})
+    # the netloc of the URI is a host:port string (what the capture helpers split again): it splits to the same host and port
+    from gallia.net import split_host_port
+
+    ctx.reach(f"uri.netloc-split.{comp}")
+    try:
+        h4, p4 = split_host_port(u.netloc)
+    except Exception as e:
+        ctx.violation(f"uri/netloc-split/raises/{comp}/{type(e).__name__}", "split_host_port raises on the netloc of a built URI", {"kind": "uri", "case": case, "netloc": u.netloc, "error": repr(e)})
+    else:
+        if not hosts_equal(kind, host, h4):
+            ctx.violation(f"uri/netloc-split/host-differs/{kind}", "the netloc of a built URI splits to another host", {"kind": "uri", "case": case, "netloc": u.netloc, "got": [h4, p4]})
+        if p4 != port:
+            ctx.violation(f"uri/netloc-split/port-differs/{comp}/{'port0' if port == 0 else 'other'}", "the netloc of a built URI splits to another port", {"kind": "uri", "case": case, "netloc": u.netloc, "got": [h4, p4]})
     loc_ok = u.location == f"{scheme}://{u.netloc}"
     if not loc_ok:
         ctx.violation("uri/location", "location is not scheme://netloc", {"kind": "uri", "case": case, "got": u.location})
@@ -282,6 +366,9 @@ def case_hostport(ctx: Any, rng: random.Random) -> None:
     port = gen_port(rng)
     ctx.case(("hostport", host, port))
     ctx.reach("hostport.roundtrip")
+    reach_zone(ctx, kind, host)
+    if kind == "ipv6z":
+        ctx.reach("hostport.ipv6z.bare" if port is None else "hostport.ipv6z+port")
     case = {"host": host, "port": port}
     if port is None:
         # bare host with and without a default
@@ -510,12 +597,12 @@ def replay(ctx: Any, witness: dict[str, Any]) -> None:
         if k == "uri":
             c = witness["case"]
             u = TargetURI(str(TargetURI.from_parts(c["scheme"], c["host"], c["port"], c["args"])))
-            if u.port != c["port"] or u.qs_flat != {a: str(b) for a, b in c["args"].items()}:
+            if u.port != c["port"] or u.qs_flat != {a: str(b) for a, b in c["args"].items()} or not hosts_equal(host_kind(c["host"]), c["host"], u.hostname):
                 ctx.violation("replay/uri", "URI round trip differs", witness)
         elif k == "hostport":
             c = witness["case"]
             got = split_host_port(join_host_port(c["host"], c["port"]))
-            if list(got) != [c["host"], c["port"]]:
+            if got[1] != c["port"] or not hosts_equal(host_kind(c["host"]), c["host"], got[0]):
                 ctx.violation("replay/hostport", f"split(join()) = {got}", witness)
         elif k == "range1d":
             if "want" in witness and unravel(witness["input"]) != witness["want"]:
